@@ -69,7 +69,7 @@ CHECKS = {
          "in-memory net.Conn instead of TCP; timeout_ms raised so wall-clock timeout replies cannot fire; a memory-shortage refusal (NOT_STORED) of a large set is accepted as a legitimate reply",
          "online protocol monitor: independent reply-grammar parser + reference map over generated and mutated byte streams; logical-quiescence detection instead of timeouts"),
  "C12": ("exploration",
-         "Same server harness; observed state = the four published buffer counters (count and size), request tokens available vs capacity, and a registry of live C blocks fed by alloc/free hooks (leak, double free, free of unknown block; poison on free). Attribution mode runs one command at a time and asserts zero at logical quiescence after each, attributing any delta to the command class (verb x key state x noreply x value above/below the C-allocation threshold); the same assertion after every mutated stream (all error stages) and after 8-connection stress, in plain, race and asan builds.",
+         "Same server harness; observed state = the four published buffer counters (count and size), request tokens available vs capacity, and a registry of live C blocks fed by alloc/free hooks (leak, double free, free of unknown block; poison on free). Attribution mode runs one command at a time and asserts zero at logical quiescence after each, attributing any delta to the command class (verb x key state x noreply x value above/below the C-allocation threshold); the same assertion after every mutated stream (all error stages) and after 8-connection stress, in plain, race and asan builds. One job lowers timeout_ms to 40 ms and sends store commands whose body arrives after the timeout (slow clients: the server's RECV_TIMEOUT path); the same zero rule applies.",
          "DESIGN.md section 4 (C12)",
          "quiescence is logical (server goroutine blocked in Read on empty input, forced flush done, background hook counters balanced); client flags carrying the server-reserved bit are excluded as the property states",
          "conservation monitor over hooked allocator state and published counters at logical quiescence, per-command attribution; race detector + AddressSanitizer on the same workloads"),
